@@ -29,6 +29,12 @@ CVRP_UPDATE_STALE = '''        td.set("action_mask", self.get_action_mask(td))
 
 CORPUS = [
     # ---------------------------------------------------------------- C01
+    V("C01", "mtvrp-linehaul-missing-or-capacity", "rl4co/envs/routing/mtvrp/env.py", '            linehauls_missing\n            & ~exceeds_cap_linehaul', '            (linehauls_missing\n            | ~exceeds_cap_linehaul)', 'C01.b'),
+    V("C01", "mtvrp-linehaul-or-not-carrying", "rl4co/envs/routing/mtvrp/env.py", '            linehauls_missing\n            & ~exceeds_cap_linehaul\n            & ~is_carrying_backhaul', '            (linehauls_missing\n            & ~exceeds_cap_linehaul\n            | ~is_carrying_backhaul)', 'C01.b'),
+    V("C01", "mtvrp-alternatives-conjoined", "rl4co/envs/routing/mtvrp/env.py", ') | (~exceeds_cap_backhaul & (td["demand_backhaul"] > 0))', ') & (~exceeds_cap_backhaul & (td["demand_backhaul"] > 0))', 'C01.b'),
+    V("C01", "mtvrp-backhaul-cap-or-kind", "rl4co/envs/routing/mtvrp/env.py", ') | (~exceeds_cap_backhaul & (td["demand_backhaul"] > 0))', ') | (~exceeds_cap_backhaul | (td["demand_backhaul"] > 0))', 'C01.b'),
+    V("C01", "eq-mtvrp-alternative-reordered", "rl4co/envs/routing/mtvrp/env.py", '            linehauls_missing\n            & ~exceeds_cap_linehaul\n            & ~is_carrying_backhaul', '            ~is_carrying_backhaul\n            & linehauls_missing\n            & ~exceeds_cap_linehaul', None),
+    V("C01", "eq-mtvrp-alternatives-swapped", "rl4co/envs/routing/mtvrp/env.py", '        meets_demand_constraint = (\n            linehauls_missing\n            & ~exceeds_cap_linehaul\n            & ~is_carrying_backhaul\n            & (td["demand_linehaul"] > 0)\n        ) | (~exceeds_cap_backhaul & (td["demand_backhaul"] > 0))', '        meets_demand_constraint = (~exceeds_cap_backhaul & (td["demand_backhaul"] > 0)) | (\n            linehauls_missing\n            & ~exceeds_cap_linehaul\n            & ~is_carrying_backhaul\n            & (td["demand_linehaul"] > 0)\n        )', None),
     V("C01", "cvrp-cap-eps-loosened", R + "cvrp/env.py", 'td["demand"] + td["used_capacity"] > td["vehicle_capacity"]',
       'td["demand"] + td["used_capacity"] > td["vehicle_capacity"] + 1e-3', "C01.d"),
     V("C01", "cvrp-mask-before-update", R + "cvrp/env.py", CVRP_UPDATE, CVRP_UPDATE_STALE, "C01.a"),
